@@ -707,84 +707,6 @@ func ruleSumDBConstants(w *World, r *Run) {
 		r.Undecided("C18.a", "packages", "", "tlog or client package not loaded")
 		return
 	}
-	// ---- C18.a PATHBASE and the digit-group format constants
-	mine, _ := cp.Types.Scope().Lookup("pathBase").(*types.Const)
-	ref, _ := tl.Types.Scope().Lookup("pathBase").(*types.Const)
-	if mine == nil || ref == nil {
-		r.Undecided("C18.a", "pathBase constants", "", "constant not found on one side")
-	} else {
-		r.Check(constant.Compare(mine.Val(), token.EQL, ref.Val()), "C18.a", pClient+".pathBase == tlog.pathBase", w.pos(mine.Pos()), fmt.Sprintf("client.pathBase = %s but the reference implementation uses %s: every tile path beyond the first digit group would differ", mine.Val(), ref.Val()))
-	}
-	refPath := findFuncDecl(tl.Syntax, "Tile", "Path")
-	myPath := findFuncDecl(cp.Syntax, "SumDBClient", "tilePath")
-	myTile := findFuncDecl(cp.Syntax, "SumDBClient", "TileData")
-	if refPath == nil || myPath == nil || myTile == nil {
-		r.Undecided("C18.a", "tile path functions", "", "tlog.Tile.Path, client.tilePath or client.TileData not found")
-	} else {
-		refLits := stringLiteralsIn(refPath)
-		for lit := range stringLiteralsIn(myPath) {
-			r.Check(refLits[lit], "C18.a", fmt.Sprintf("%s.tilePath | format %q is one the reference Tile.Path uses", pClient, lit), w.pos(myPath.Pos()), fmt.Sprintf("digit-group format %q does not occur in tlog.Tile.Path (reference formats: %v)", lit, sortedSet(refLits)))
-		}
-		for lit := range stringLiteralsIn(myTile) {
-			// "/tile/%d/%d/%s" vs reference "tile/%d/%s/%s%s" (level is pre-formatted there), "%s.p/%d" vs ".p/%d"
-			norm := strings.TrimPrefix(lit, "/")
-			okLit := false
-			switch {
-			case strings.HasPrefix(norm, "tile/"):
-				okLit = strings.HasPrefix(norm, "tile/%d/%d/%s") && refLits["tile/%d/%s/%s%s"]
-			case strings.Contains(norm, ".p/"):
-				okLit = strings.HasSuffix(norm, ".p/%d") && refLits[".p/%d"]
-			default:
-				okLit = true
-			}
-			r.Check(okLit, "C18.a", fmt.Sprintf("%s.TileData | format %q agrees with the reference layout", pClient, lit), w.pos(myTile.Pos()), fmt.Sprintf("tile URL format %q does not follow tile/<height>/<level>/<index>[.p/<width>]", lit))
-		}
-	}
-	// tilePath: loop structure mirrors the reference (modulus and divisor are pathBase, loop while offset >= pathBase)
-	if sums, _, ok := explore(w, r, "C18.a", "(*"+pClient+".SumDBClient).tilePath", 4, 2); ok {
-		base := ref.Val().ExactString()
-		fn := w.fn("(*" + pClient + ".SumDBClient).tilePath")
-		off := paramN(fn, 0)
-		good := true
-		nLoop := 0
-		baseT := mk("const", base, 0, types.Typ[types.Int])
-		for _, s := range sums {
-			for _, f := range s.Facts {
-				anySub(f.T, func(t *Term) bool {
-					if t.Kind == "binop" && (t.Name == "%" || t.Name == "/") {
-						if !(t.Args[1].Kind == "const" && t.Args[1].Name == base) {
-							good = false
-						}
-					}
-					return false
-				})
-			}
-			iters := 0
-			for _, sp := range calls(s, "fmt.Sprintf") {
-				if f0, _ := constInt(sp.Args[0]); strings.HasPrefix(unquote(f0), "x") {
-					iters++
-				}
-				anySub(sp.Args[1], func(t *Term) bool {
-					if t.Kind == "binop" && (t.Name == "%" || t.Name == "/") && !(t.Args[1].Kind == "const" && t.Args[1].Name == base) {
-						good = false
-					}
-					return false
-				})
-			}
-			// the carry loop runs iff the index is >= pathBase (whatever way the test is written)
-			if iters == 0 {
-				if !implies(s.Facts, "<", off, baseT, true) {
-					good = false
-				}
-			} else {
-				nLoop++
-				if !implies(s.Facts, "<", off, baseT, false) {
-					good = false
-				}
-			}
-		}
-		r.Check(good && nLoop > 0, "C18.a", pClient+".tilePath | groups of pathBase digits, looping while the remainder is >= pathBase", w.pos(fn.Pos()), "tilePath does not split the index into base-"+base+" groups with the reference loop condition")
-	}
 	// ---- C18.b HEIGHT-COHERENT (sumdb feeder)
 	sp := modPath + "/internal/feeder/sumdb"
 	fp := w.pkg(sp)
@@ -831,153 +753,8 @@ func ruleSumDBConstants(w *World, r *Run) {
 			r.Undecided("C18.b", sp+".FeedLog", "", "NewSumDB call not found")
 		}
 	}
-	// ---- C18.c COORDINATES (sumdb ReadTiles)
-	rt := "(" + sp + ".tileReader).ReadTiles"
-	td := "(*" + pClient + ".SumDBClient).TileData"
-	if sums, e, ok := exploreOpaque(w, r, "C18.c", rt, 4, 2, td); ok {
-		fn := w.fn(rt)
-		tiles := paramN(fn, 0)
-		nCall := 0
-		for _, s := range sums {
-			tds := calls(s, td)
-			for i, c := range tds {
-				nCall++
-				// which tile is this request for? (taken from the level argument, not from the call's ordinal)
-				idx := fmt.Sprint(i)
-				anySub(c.Args[0], func(t *Term) bool {
-					if t.Kind == "indexaddr" && t.Args[0] == tiles && t.Args[1].Kind == "const" {
-						idx = t.Args[1].Name
-					}
-					return false
-				})
-				el := func(f string) *Term {
-					return mk("field", f, 0, nil, mk("deref", "", 0, nil, mk("indexaddr", "", 0, nil, tiles, mk("const", idx, 0, types.Typ[types.Int]))))
-				}
-				lvl, offT, part := c.Args[0], c.Args[1], c.Args[2]
-				good := lvl == el("L") && offT.Kind == "conv" && offT.Args[0] == el("N")
-				// the width argument derives from t.W (or is a constant marker); the partial/full decision itself is
-				// checked on the composition ReadTiles ∘ TileData below
-				if !(part == el("W") || part.Kind == "const") {
-					good = false
-				}
-				r.Check(good, "C18.c", rt+" | TileData(level = t.L, offset = t.N, width from t.W)", w.pos(c.Pos), "tile "+fmt.Sprint(i)+" is requested with ("+short(fmt.Sprint(c.Args))+"); path: "+pathString(e, s))
-			}
-			// results appended one per tile, in order
-			if len(s.Rets) == 2 && s.Rets[1].Kind == "nil" {
-				var elems []*Term
-				t := s.Rets[0]
-				for t.Kind == "append" {
-					var el []*Term
-					for _, x := range t.Args[1:] {
-						if x.Kind == "varargs" {
-							el = append(el, x.Args...)
-						}
-					}
-					elems = append(el, elems...)
-					t = t.Args[0]
-				}
-				good := len(elems) == len(tds)
-				for i := range elems {
-					if i < len(tds) && elems[i] != res(tds[i], 0) {
-						good = false
-					}
-				}
-				r.Check(good, "C18.c", rt+" | one result per requested tile, in order", w.pos(s.RetPos), "ReadTiles returns "+short(s.Rets[0].String()))
-			}
-		}
-		if nCall == 0 {
-			r.Undecided("C18.c", rt, "", "no TileData call found")
-		}
-	}
-	// TileData: 'partial > 0' selects the .p/ suffix, level and offset land in their verbs
-	if sums, _, ok := exploreOpaque(w, r, "C18.c", td, 4, 1, "(*"+pClient+".SumDBClient).tilePath"); ok {
-		fn := w.fn(td)
-		lvl, off, part := paramN(fn, 0), paramN(fn, 1), paramN(fn, 2)
-		for _, s := range sums {
-			sps := calls(s, "fmt.Sprintf")
-			tp := calls(s, "(*"+pClient+".SumDBClient).tilePath")
-			good := len(sps) >= 1 && len(tp) == 1 && tp[0].Args[0] == off
-			if good {
-				va := sps[0].Args[1]
-				good = va.Kind == "varargs" && len(va.Args) == 3 && va.Args[0] == mk("field", "height", 0, nil, recvParam(fn)) && va.Args[1] == lvl && va.Args[2] == tp[0].Res
-			}
-			_ = part
-			if good && len(sps) == 2 {
-				good = sps[1].Args[1].Kind == "varargs" && len(sps[1].Args[1].Args) == 2 && sps[1].Args[1].Args[0] == sps[0].Res
-			}
-			r.Check(good, "C18.c", td+" | URL verbs = (height, level, path(offset)), optional '.p/<width>' appended to that URL", w.pos(s.RetPos), "TileData assembles its URL from other values")
-		}
-	}
-	// ReadTiles ∘ TileData: the '.p/<w>' suffix is requested exactly for tiles narrower than a full tile, and carries t.W.
-	// tlog only ever asks for 1 <= t.W <= 1<<height; under that invariant: no suffix => t.W == full, suffix => t.W < full.
-	if sums, e, ok := exploreOpaque(w, r, "C18.c", rt, 4, 1, "(*"+pClient+".SumDBClient).tilePath"); ok {
-		fn := w.fn(rt)
-		tiles := paramN(fn, 0)
-		full := mk("const", fmt.Sprint(l), 0, types.Typ[types.Int])
-		one := mk("const", "1", 0, types.Typ[types.Int])
-		nT := 0
-		for _, s := range sums {
-			// group the URL formatting calls by tile request: a "tile/…" format opens a group, a ".p/" format joins it
-			type grp struct {
-				evs []Event
-				idx string
-			}
-			var groups []*grp
-			for _, sp := range calls(s, "fmt.Sprintf") {
-				f0, _ := constInt(sp.Args[0])
-				switch {
-				case strings.Contains(f0, ".p/"):
-					if len(groups) > 0 {
-						groups[len(groups)-1].evs = append(groups[len(groups)-1].evs, sp)
-					}
-				case strings.Contains(f0, "tile"):
-					g := &grp{evs: []Event{sp}}
-					anySub(sp.Args[1], func(t *Term) bool {
-						if t.Kind == "indexaddr" && t.Args[0] == tiles && t.Args[1].Kind == "const" {
-							g.idx = t.Args[1].Name
-						}
-						return false
-					})
-					groups = append(groups, g)
-				}
-			}
-			byCtx := map[string][]Event{}
-			var order []string
-			for i, g := range groups {
-				k := fmt.Sprint(i)
-				byCtx[k] = g.evs
-				order = append(order, k)
-			}
-			for i, cx := range order {
-				nT++
-				if groups[i].idx == "" {
-					r.Undecided("C18.c", rt+" ∘ TileData | tile request provenance", w.pos(byCtx[cx][0].Pos), "cannot tell which tile a URL is built for")
-					continue
-				}
-				wT := mk("field", "W", 0, types.Typ[types.Int], mk("deref", "", 0, nil, mk("indexaddr", "", 0, nil, tiles, mk("const", groups[i].idx, 0, types.Typ[types.Int]))))
-				inv := []ordFact{{"<", wT, one, false}, {"<", full, wT, false}} // 1 <= W <= full
-				var suffix *Event
-				for j := range byCtx[cx] {
-					if f0, _ := constInt(byCtx[cx][j].Args[0]); strings.Contains(f0, ".p/") {
-						suffix = &byCtx[cx][j]
-					}
-				}
-				key := rt + " ∘ TileData | partial-tile suffix exactly for tiles narrower than 1<<height, carrying t.W"
-				if suffix == nil {
-					good := impliesWith(s.Facts, inv, "==", wT, full, true)
-					r.Check(good, "C18.c", key, w.pos(byCtx[cx][0].Pos), fmt.Sprintf("a tile can be requested at the full-tile path although its width may be below %d (facts on the path do not imply t.W == %d): the server answers 404 or a different tile; path: %s", l, l, pathString(e, s)))
-				} else {
-					good := impliesWith(s.Facts, inv, "<", wT, full, true)
-					va := suffix.Args[1]
-					good = good && va.Kind == "varargs" && len(va.Args) == 2 && va.Args[1] == wT
-					r.Check(good, "C18.c", key, w.pos(suffix.Pos), fmt.Sprintf("the '.p/' suffix is requested on a path that admits a full tile, or does not carry t.W (%s)", short(va.String())))
-				}
-			}
-		}
-		if nT == 0 {
-			r.Undecided("C18.c", rt+" ∘ TileData", "", "no tile request found on the composed paths")
-		}
-	}
+	// ---- C18.a / C18.c on the composition ReadTiles ∘ client, by URL templates
+	ruleTileAddressing(w, r, h)
 	// pixel ReadTiles: verbs (t.H, t.L, t.N), suffix iff t.W < 1<<t.H
 	prt := "(" + modPath + "/internal/feeder/pixelbt.tileReader).ReadTiles"
 	if sums, _, ok := explore(w, r, "C18.c", prt, 1, 1); ok {
